@@ -13,7 +13,9 @@ EXTRA_FILES = {
     'C06': ['bus/config-parser-common.c', 'dbus/dbus-sysdeps-unix.c', 'dbus/dbus-credentials.c'],
     'C11': ['dbus/dbus-connection.c'],
     'C05': ['dbus/dbus-message.c'],
-    'C19': ['bus/activation-helper-bin.c', 'bus/config-parser-trivial.c'],
+    'C19': ['bus/activation-helper-bin.c', 'bus/config-parser-trivial.c',
+            'bus/bus.c'],                                                  # the activation timeout comes from the context
+    'C15': ['dbus/dbus-auth.c', 'dbus/dbus-transport.c'],                  # where descriptor passing is negotiated and asked about
     'C13': ['dbus/dbus-connection.c', 'dbus/dbus-transport.c'],   # the size limit travels connection -> transport -> loader
     'C14': ['bus/config-parser.c', 'bus/config-parser-common.c', 'bus/policy.c', 'bus/config-loader-expat.c'],
 }
@@ -1470,6 +1472,81 @@ def fresh_reads(ck, prog):
 
 
 # ---------------------------------------------------------------------------
+# trivial accessors name the field they access
+
+def accessor_fields(prog, f):
+    """(kind, field accessed, field named, line) for a trivial getter / setter whose name ends in a field name of the
+    record it accesses; None when f is not of that shape."""
+    import re
+    from .cfg import written_lvalues, is_ref
+
+    def strip(e):
+        while isinstance(e, dict) and e.get('k') in ('paren', 'cast'):
+            e = e['e']
+        return e
+
+    def named(rec, suffix):
+        r = prog.records.get(rec)
+        if not r:
+            return None
+        names = {x['name'] for x in r['fields']}
+        parts = suffix.split('_')
+        for i in range(len(parts)):
+            s2 = '_'.join(parts[i:])
+            if s2 in names:
+                return s2
+        return None
+    m = re.search(r'_get_(\w+)$', f.name)
+    if m:
+        rets = [ev for b, i, ev in f.events() if ev['ev'] == 'return' and ev.get('e') is not None]
+        if len(rets) == 1:
+            e = strip(rets[0]['e'])
+            if isinstance(e, dict) and e.get('k') == 'member' and e.get('rec'):
+                cand = named(e['rec'], m.group(1))
+                if cand:
+                    return ('returns', e['field'], cand, rets[0]['line'])
+    m = re.search(r'_set_(\w+)$', f.name)
+    if m and len(f.params) >= 2:
+        stores = [(l, h, r, ev['line']) for b, i, ev in f.events() for l, h, r in written_lvalues(ev)
+                  if l.get('k') == 'member' and h == '=']
+        if len(stores) == 1:
+            l, h, r, line = stores[0]
+            r = strip(r)
+            if isinstance(r, dict) and is_ref(r) and r.get('kind') == 'param' and l.get('rec'):
+                cand = named(l['rec'], m.group(1))
+                if cand:
+                    return ('stores', l['field'], cand, line)
+    return None
+
+
+def accessors(ck, prog):
+    pid = ck.pid
+    files = anchor_files(pid)
+    r = ck.rule(pid + '.H', 'trivial accessors access the field they are named after, in this property\'s files: a '
+                'function `..._get_<field>` that just returns a member, or `..._set_<field>` that just stores its '
+                'argument, of a record that has a field `<field>`, uses that field', 'TAB',
+                breaks='every caller of the accessor silently works with the neighbouring field: the activation timer runs '
+                'for the authentication timeout, "descriptor passing was negotiated" answers "is possible on this '
+                'socket"', floor=0)
+    n = 0
+    for f in prog.funcs.values():
+        if f.file not in files or not prog.is_production(f):
+            continue
+        a = accessor_fields(prog, f)
+        if a is None:
+            continue
+        kind, got, want, line = a
+        n += 1
+        key = '%s:%s' % (f.name, want)
+        if got != want and not got.endswith('_' + want) and not want.endswith('_' + got):
+            r.violation(key, f.name, f.file, line, '%s %s %s, not the field %s it is named after' % (f.name, kind, got, want))
+        else:
+            r.ok(key)
+    if n == 0:
+        r.ok('no-trivial-accessors-in-scope')
+
+
+# ---------------------------------------------------------------------------
 # which function a function calls
 
 def callee_profile(f):
@@ -1571,5 +1648,6 @@ def run(ck, prog):
     condition_functions(ck, prog)
     never_set_values(ck, prog)
     callee_identity(ck, prog)
+    accessors(ck, prog)
     fresh_reads(ck, prog)
     cursor_loops(ck, prog)
